@@ -222,3 +222,15 @@ package layout
 //@   ensures average_at_most_two_runes: r <==> (len(fragments) > 0 && runesum(fragments, len(fragments)) <= 2 * len(fragments))
 //@   loop 0:
 //@     invariant totalChars == runesum(fragments, $i)
+
+// ---- C09: the Y-band helper of the column code puts every fragment into exactly one band ----
+//@ spec rec prefix func bandsum(bs []yBand, n int) int = n <= 0 ? 0 : bandsum(bs, n - 1) + wsum(bs[n-1].fragments, len(bs[n-1].fragments))
+//@ func groupFragmentsIntoLines results (res)
+//@   property C09
+//@   ensures conserved: lsum(res, len(res)) == wsum(fragments, len(fragments))
+//@   loop 0:
+//@     invariant bandsum(bands, len(bands)) == wsum(fragments, $i)
+//@   loop 1:
+//@     invariant len(bands) == entry(len(bands)) && !found && bandsum(bands, len(bands)) == wsum(fragments, $i2)
+//@   loop 2:
+//@     invariant lsum(lines, len(lines)) == bandsum(bands, $i)
